@@ -10,7 +10,8 @@ Decided here (equality of sets and independence of the number of spare variable 
           is quantified, renamed or filtered;
   C15-R3  the index of a variable's symbolic copy is computed from the variable name only (name.len() - 1), never from
           the number of extra variables of the graph; get_extended_symbolic_graph gives every network variable the same
-          number of copies."""
+          number of copies; check_hctl_var_support accepts a graph exactly when every network variable has at least as many
+          copies as the tree has quantifier variables - no more is demanded (shared with C07-R4)."""
 import evalnode as E
 import lowlevel
 import norm
